@@ -53,6 +53,17 @@ func InspectSymbolContent(name string) string {
 	firstLetter := true
 	str := name
 
+	if len(name) == 0 {
+		// `:` alone is not a symbol literal
+		quotes = true
+	} else if name[0] == '_' && len(name) > 1 {
+		// the lexer reads `_x` as one identifier only when `x` is an upper or lower case letter
+		second, _ := utf8.DecodeRuneInString(name[1:])
+		if !unicode.IsUpper(second) && !unicode.IsLower(second) {
+			quotes = true
+		}
+	}
+
 	for {
 		if len(str) == 0 {
 			break
